@@ -85,7 +85,9 @@ func c15Batch(c *caseCtx, addr string, maxLen int) (items []wireItem, ids []stri
 	base := actor.NewPID("10.0.0.1:4000", "s/1")
 	senders := []*actor.PID{nil, base, actor.NewPID("10.0.0.1:4000", "s/1"), actor.NewPID("10.0.0.1:4000", "s/2"),
 		actor.NewPID("ab", "c"), actor.NewPID("a", "bc"), nil, actor.NewPID("", "noaddr"), actor.NewPID("onlyaddr", ""),
-		actor.NewPID("10.0.0.1:4000", "s/1/q"), actor.NewPID("10.0.0.1:4000/s", "1/q")}
+		actor.NewPID("10.0.0.1:4000", "s/1/q"), actor.NewPID("10.0.0.1:4000/s", "1/q"),
+		// the same ids on other nodes (forwarded senders): an id alone does not name a PID
+		actor.NewPID("10.0.0.2:4000", "s/1"), actor.NewPID("10.0.0.1:4001", "s/2"), actor.NewPID("10.0.0.2:4000", "noaddr")}
 	sPool := 1 + r.Intn(len(senders))
 	n := 1 + r.Intn(maxLen)
 	big := 0
